@@ -418,6 +418,52 @@ def register(g):
               '/-- `needs_copy` of boss_sync.rs, translated (outer `none`: the `panic!("Wrong entry type")` arm) -/\n'
               f'def needsCopySrc (c : PCfg) (s d : Details) : Option (Option CopyReason) :=\n  {e_c}\nend Rj.Generated\n')
 
+    def process_entries():
+        """process_src_entry / process_dest_entry of boss_sync.rs, TRANSLATED statement by statement (extract/translate.py, class S)"""
+        import translate
+        import re as _re
+        src = strip_comments(read('src/boss_sync.rs'))
+        ok = True
+        try:
+            sig = (r'fn\s+process_%s_entry\s*\(\s*ctx\s*:\s*&mut\s+SyncContext\s*,\s*p\s*:\s*RootRelativePath\s*,\s*%s_entry\s*:\s*EntryDetails\s*,'
+                   r'\s*src_entries\s*:\s*&(mut\s+)?EntriesList\s*,\s*dest_entries\s*:\s*&(mut\s+)?EntriesList\s*,'
+                   r'\s*dest_platform_differentiates_symlinks\s*:\s*bool\s*,\s*to_delete\s*:\s*&mut\s+ToDelete\s*,\s*to_copy\s*:\s*&mut\s+ToCopy\s*,?\s*\)\s*\{')
+            for side in ('src', 'dest'):
+                if not _re.search(sig % (side, side), src):
+                    raise translate.Unsupported('signature of process_%s_entry' % side)
+            wrap = lambda b: b if b.strip().startswith('{') else '{' + b + '}'
+            e_s = translate.translate_proc(wrap(fn_body(src, 'process_src_entry')), 'src_entry')
+            e_d = translate.translate_proc(wrap(fn_body(src, 'process_dest_entry')), 'dest_entry')
+            # the call sites in query_entries: the same containers, in the parameters' order
+            calls = []
+            for m in _re.finditer(r'(fn\s+)?process_(src|dest)_entry\s*\(', src):
+                if m.group(1): continue
+                i, depth = m.end(), 1
+                while depth:
+                    depth += {'(': 1, ')': -1}.get(src[i], 0); i += 1
+                calls.append((m.group(2), src[m.end():i - 1]))
+            want = {'src': ['&mutsrc_entries', '&dest_entries', 'dest_platform_differentiates_symlinks', '&mutto_delete', '&mutto_copy'],
+                    'dest': ['&src_entries', '&mutdest_entries', 'dest_platform_differentiates_symlinks', '&mutto_delete', '&mutto_copy']}
+            n_calls = {'src': 0, 'dest': 0}
+            for side, args in calls:
+                parts = [_re.sub(r'\s+', '', a) for a in args.split(',')]
+                if parts[-5:] != want[side]:
+                    raise translate.Unsupported('arguments of a process_%s_entry call: %r' % (side, parts))
+                n_calls[side] += 1
+            if n_calls != {'src': 2, 'dest': 2}:
+                raise translate.Unsupported('call sites of process_*_entry: %r' % n_calls)
+        except Exception as e:
+            ok = False
+            status['process-entries'] = f'process_src_entry / process_dest_entry are outside the translated subset: {e!r}'
+            e_s = e_d = 'none'
+        write('ProcessEntries.lean', 'import RjModel.Generated.Decisions\nnamespace Rj.Generated\n'
+              '/-- both functions were inside the subset the statement translator handles -/\n'
+              f'def processTranslated : Bool := {"true" if ok else "false"}\n'
+              '/-- `process_src_entry` of boss_sync.rs, translated (`none`: a panic) -/\n'
+              f'def processSrcEntrySrc (c : PCfg) (s : PState) (p : String) (src_entry : Details) : Option PState :=\n  {e_s}\n'
+              '/-- `process_dest_entry` of boss_sync.rs, translated (`none`: a panic) -/\n'
+              f'def processDestEntrySrc (c : PCfg) (s : PState) (p : String) (dest_entry : Details) : Option PState :=\n  {e_d}\nend Rj.Generated\n')
+
     def apply_filters_skel():
         """apply_filters of doer.rs: the early return for the root, the default by the first filter's kind, the assignment loop"""
         import re as _re
@@ -471,4 +517,4 @@ def register(g):
               f'def pathDescDriveGuard : String := {lean_str(guard)}\ndef pathDescSplits : Nat := {n_split}\nend Rj.Generated\n')
 
     g_ = g
-    return {'path_desc': path_desc, 'apply_filters_skel': apply_filters_skel, 'decisions': decisions, 'run_skel': run_skel, 'link_socket': link_socket, 'session': session, 'defaults': defaults, 'skeletons': skeletons, 'sites': sites, 'shutdown': shutdown, 'panic_sites': panic_sites, 'walker': walker, 'slash_table': slash_table}
+    return {'process_entries': process_entries, 'path_desc': path_desc, 'apply_filters_skel': apply_filters_skel, 'decisions': decisions, 'run_skel': run_skel, 'link_socket': link_socket, 'session': session, 'defaults': defaults, 'skeletons': skeletons, 'sites': sites, 'shutdown': shutdown, 'panic_sites': panic_sites, 'walker': walker, 'slash_table': slash_table}
